@@ -187,3 +187,170 @@ theorem tsText_run_val (t : Nat) (stk : List Ctx) : run ⟨.val, stk⟩ (tsText 
   · simp [run, step, digit_isDigit]
 
 end Uft.Json
+
+namespace Uft.Json
+
+/-! ## the name buffer -/
+
+structure NBInv (b : NB) : Prop where
+  term : b.term = false
+  oob : b.oob = false
+  pos : b.pos = b.out.length
+  len : b.len + b.pos = 2047
+
+theorem nbInit_inv : NBInv nbInit := ⟨rfl, rfl, rfl, rfl⟩
+
+theorem wrapSub_small {a b : Nat} (h : b ≤ a) (ha : a < 4096) : wrapSub a b = a - b := by
+  unfold wrapSub W; omega
+
+/-- a store that fits keeps the buffer a plain C string -/
+theorem putEsc_inv {b : NB} (c : Nat) (hi : NBInv b) (hl : (escapeChar c).length < b.len) :
+    NBInv (putEsc b c) ∧ (putEsc b c).out = b.out ++ escapeChar c := by
+  obtain ⟨ht, ho, hp, hlen⟩ := hi
+  have hx := escapeChar_length c
+  unfold putEsc
+  split
+  · rename_i hv
+    have he := escapeChar_viaChar hv
+    rw [he] at hl ⊢
+    simp only [List.length_cons, List.length_nil] at hl
+    refine ⟨⟨?_, ?_, ?_, ?_⟩, ?_⟩
+    · simp [printChar, ht]
+    · simp only [printChar, ho, cap, Bool.false_or, decide_eq_false_iff_not]; omega
+    · simp [printChar, ht, hp]
+    · simp only [printChar]; rw [wrapSub_small (by omega) (by omega)]; omega
+    · simp [printChar, ht]
+  · have hne : b.len ≠ 0 := by omega
+    have hk : min (escapeChar c).length (b.len - 1) = (escapeChar c).length := by omega
+    refine ⟨⟨?_, ?_, ?_, ?_⟩, ?_⟩
+    · simp [printArgs, hne, ht, hk]
+    · simp only [printArgs, hne, ↓reduceIte, hk, ho, cap, Bool.false_or, decide_eq_false_iff_not]; omega
+    · simp [printArgs, hne, ht, hk, hp]
+    · simp only [printArgs, hne, ↓reduceIte]; rw [wrapSub_small (by omega) (by omega)]; omega
+    · simp [printArgs, hne, ht, hk]
+
+theorem escapeStr_cons (c : Nat) (cs : List Nat) : escapeStr (c :: cs) = escapeChar c ++ escapeStr cs := by
+  simp [escapeStr]
+
+/-- as long as everything fits (with the guard: fits with 6 bytes to spare) the loop
+    produces the escaped name -/
+theorem nameLoop_fits (f : Bool) (bound : Nat) (hb : bound ≤ 2046) (hf : f = true → bound ≤ 2041) :
+    ∀ (name : List Nat) (b : NB), NBInv b → b.pos + (escapeStr name).length ≤ bound →
+      NBInv (nameLoop f b name) ∧ (nameLoop f b name).out = b.out ++ escapeStr name
+  | [], b, hi, _ => by simp [nameLoop, escapeStr, hi]
+  | c :: cs, b, hi, hl => by
+    have hx := escapeChar_length c
+    rw [escapeStr_cons, List.length_append] at hl
+    have hlen := hi.len
+    have hg : (f && decide (b.len < 6)) = false := by
+      cases f with
+      | false => rfl
+      | true =>
+        have := hf rfl
+        simp only [Bool.true_and, decide_eq_false_iff_not]; omega
+    have h1 := putEsc_inv c hi (by omega)
+    have hpos : (putEsc b c).pos = b.pos + (escapeChar c).length := by
+      rw [h1.1.pos, h1.2, hi.pos, List.length_append]
+    have h2 := nameLoop_fits f bound hb hf cs (putEsc b c) h1.1 (by omega)
+    simp only [nameLoop, hg, Bool.false_eq_true, ↓reduceIte]
+    refine ⟨h2.1, ?_⟩
+    rw [h2.2, h1.2, escapeStr_cons, List.append_assoc]
+
+/-- with the guard the loop never leaves the buffer and stops between two escapes -/
+theorem nameLoop_fixed : ∀ (name : List Nat) (b : NB), NBInv b →
+    NBInv (nameLoop true b name) ∧ ∃ k, (nameLoop true b name).out = b.out ++ escapeStr (name.take k)
+  | [], b, hi => by exact ⟨by simpa [nameLoop] using hi, 0, by simp [nameLoop, escapeStr]⟩
+  | c :: cs, b, hi => by
+    simp only [nameLoop, Bool.true_and]
+    split
+    · exact ⟨hi, 0, by simp [escapeStr]⟩
+    · rename_i hg
+      have hx := escapeChar_length c
+      have hg' : 6 ≤ b.len := by simpa using hg
+      have h1 := putEsc_inv c hi (by omega)
+      obtain ⟨h2, k, hk⟩ := nameLoop_fixed cs (putEsc b c) h1.1
+      refine ⟨h2, k + 1, ?_⟩
+      rw [hk, h1.2, List.take_succ_cons, escapeStr_cons, List.append_assoc]
+
+/-- `p - name_buf` is the escaped length, whatever happens to the buffer -/
+theorem nameLoop_false_pos : ∀ (name : List Nat) (b : NB),
+    (nameLoop false b name).pos = b.pos + (escapeStr name).length
+  | [], b => by simp [nameLoop, escapeStr]
+  | c :: cs, b => by
+    simp only [nameLoop, Bool.false_and, Bool.false_eq_true, ↓reduceIte]
+    rw [nameLoop_false_pos cs, escapeStr_cons, List.length_append]
+    have : (putEsc b c).pos = b.pos + (escapeChar c).length := by
+      unfold putEsc
+      split
+      · rename_i hv; rw [escapeChar_viaChar hv]; rfl
+      · unfold printArgs; split <;> rfl
+    omega
+
+/-! ## the document -/
+
+theorem body_of_valid {bs : List Nat} (h : validBody bs = true) : bodyRun .normal bs = some .normal := by
+  simpa [validBody] using h
+
+theorem numEnd_run {c : Prop} [Decidable c] {T : List Ctx} {l : List Nat} {u : St}
+    (h0 : run ⟨.zero, T⟩ l = some u) (h1 : run ⟨.int, T⟩ l = some u) :
+    run ⟨if c then .zero else .int, T⟩ l = some u := by
+  split <;> assumption
+
+theorem metaLine_run {kind comm : List Nat} (tid : Nat)
+    (hk : bodyRun .normal kind = some .normal) (hc : bodyRun .normal comm = some .normal) :
+    run ⟨.val, [.arr, .obj]⟩ (metaLine kind tid comm) = some ⟨.after, [.arr, .obj]⟩ := by
+  unfold metaLine
+  have hA : run ⟨.val, [.arr, .obj]⟩ b!"{\"ts\":0,\"ph\":\"M\",\"pid\":" = some ⟨.val, [.obj, .arr, .obj]⟩ := by decide
+  have hB : run ⟨if tid = 0 then .zero else .int, [.obj, .arr, .obj]⟩ b!",\"name\":\"" =
+      some ⟨.str false .normal, [.obj, .arr, .obj]⟩ := numEnd_run (by decide) (by decide)
+  have hC : run ⟨.str false .normal, [.obj, .arr, .obj]⟩ b!"\",\"args\":{\"name\":\"[" =
+      some ⟨.str false .normal, [.obj, .obj, .arr, .obj]⟩ := by decide
+  have hD : run ⟨.str false .normal, [.obj, .obj, .arr, .obj]⟩ b!"] " =
+      some ⟨.str false .normal, [.obj, .obj, .arr, .obj]⟩ := by decide
+  have hE : run ⟨.str false .normal, [.obj, .obj, .arr, .obj]⟩ b!"\"}}" = some ⟨.after, [.arr, .obj]⟩ := by decide
+  exact run_trans (run_trans (run_trans (run_trans (run_trans (run_trans (run_trans (run_trans
+    hA (dec_run_val tid _)) hB) (run_body hk)) hC) (run_body (dec_body tid))) hD) (run_body hc)) hE
+
+theorem evText_run (f : Bool) (e : Ev) (hn : bodyRun .normal (escapeName f e.name).out = some .normal) :
+    run ⟨.val, [.arr, .obj]⟩ (evText f e) = some ⟨.after, [.arr, .obj]⟩ := by
+  unfold evText
+  have h1 : run ⟨.val, [.arr, .obj]⟩ b!"{\"ts\":" = some ⟨.val, [.obj, .arr, .obj]⟩ := by decide
+  have h2 : run ⟨.frac, [.obj, .arr, .obj]⟩ b!",\"ph\":\"" = some ⟨.str false .normal, [.obj, .arr, .obj]⟩ := by decide
+  have h3 : run ⟨.str false .normal, [.obj, .arr, .obj]⟩ [if e.entry then 66 else 69] =
+      some ⟨.str false .normal, [.obj, .arr, .obj]⟩ := by split <;> decide
+  have h4 : run ⟨.str false .normal, [.obj, .arr, .obj]⟩ b!"\",\"pid\":" = some ⟨.val, [.obj, .arr, .obj]⟩ := by decide
+  have h5 : ∃ n, run ⟨.val, [.obj, .arr, .obj]⟩
+      (if e.pid = e.tid then dec e.tid else dec e.pid ++ b!",\"tid\":" ++ dec e.tid) =
+      some ⟨if n = 0 then .zero else .int, [.obj, .arr, .obj]⟩ := by
+    split
+    · exact ⟨e.tid, dec_run_val _ _⟩
+    · refine ⟨e.tid, run_trans (run_trans (dec_run_val e.pid _) (t := ⟨.val, [.obj, .arr, .obj]⟩) ?_) (dec_run_val _ _)⟩
+      exact numEnd_run (by decide) (by decide)
+  obtain ⟨n, h5⟩ := h5
+  have h6 : run ⟨if n = 0 then .zero else .int, [.obj, .arr, .obj]⟩ b!",\"name\":\"" =
+      some ⟨.str false .normal, [.obj, .arr, .obj]⟩ := numEnd_run (by decide) (by decide)
+  have h7 : run ⟨.str false .normal, [.obj, .arr, .obj]⟩ b!"\"}" = some ⟨.after, [.arr, .obj]⟩ := by decide
+  exact run_trans (run_trans (run_trans (run_trans (run_trans (run_trans (run_trans (run_trans
+    h1 (tsText_run_val e.time _)) h2) h3) h4) h5) h6) (run_body hn)) h7
+
+/-- the state between two elements of the "traceEvents" array -/
+def openSt (lc : Bool) : St := if lc then ⟨.after, [.arr, .obj]⟩ else ⟨.valOrEnd, [.arr, .obj]⟩
+
+/-- an element (an object) printed with the `last_comma` protocol -/
+theorem elem_run {E : List Nat} (lc : Bool) (hE : run ⟨.val, [.arr, .obj]⟩ (123 :: E) = some ⟨.after, [.arr, .obj]⟩) :
+    run (openSt lc) ((if lc then b!",\n" else []) ++ 123 :: E) = some (openSt true) := by
+  cases lc with
+  | true =>
+    have : run ⟨.after, [.arr, .obj]⟩ b!",\n" = some ⟨.val, [.arr, .obj]⟩ := by decide
+    exact run_trans this hE
+  | false =>
+    have h2 : run ⟨.valOrEnd, [.arr, .obj]⟩ (123 :: E) = run ⟨.val, [.arr, .obj]⟩ (123 :: E) := rfl
+    simpa [openSt, h2] using hE
+
+theorem evText_head (f : Bool) (e : Ev) : ∃ E, evText f e = 123 :: E := by
+  unfold evText; exact ⟨_, by simp [List.append_assoc]; rfl⟩
+
+theorem metaLine_head (kind : List Nat) (tid : Nat) (comm : List Nat) : ∃ E, metaLine kind tid comm = 123 :: E := by
+  unfold metaLine; exact ⟨_, by simp [List.append_assoc]; rfl⟩
+
+end Uft.Json
